@@ -47,6 +47,12 @@ def typed(case, **types):
 SELF = ("self", TDictList("Object"))
 
 
+def ELEM(eng, st, E):
+    """result: an element of the list (class taken from the list's declared element class)"""
+    kind = st.objs[E["self"].oid]["ekind"]
+    return st, VRef(fresh("res", Ref), kind[4:])
+
+
 # ---------------------------------------------------------------- spec fragments
 def removed_at(E, v, p):
     n0, e0 = L(E.s0, v)
@@ -89,7 +95,7 @@ add("get_by_id", [SELF, ("id", TStr())], [
          ensures=lambda E: z3.And(E.res.t == L(E.s0, E["self"])[1][Dv(E.s0, E["self"])[1][E["id"].t]],
                                   ida(E)[E.res.t] == E["id"].t)),
     Case("absent", requires=lambda E: z3.Not(z3.Select(Dv(E.s0, E["self"])[0], E["id"].t)), raises="KeyError"),
-], result=OBJ)
+], result=ELEM)
 
 
 def _idx_found(E):
@@ -126,7 +132,7 @@ add("__getitem__", [SELF, ("i", TInt())], [
     typed(Case("int_in_range", requires=_gi_in,
                ensures=lambda E: E.res.t == L(E.s0, E["self"])[1][norm(E["i"].t, L(E.s0, E["self"])[0])]), i=VInt),
     typed(Case("int_out_of_range", requires=lambda E: z3.Not(_gi_in(E)), raises="IndexError"), i=VInt),
-], result=OBJ)
+], result=ELEM)
 
 # ---------------------------------------------------------------- mutators
 ENT = ("entity", TRef("Object"))
@@ -207,7 +213,7 @@ add("pop", [SELF, ("*args", TTuple([]))], [
     pcase(Case("index_in_range", requires=_with_argc(1, _pop_in), ensures=_pop_post), args=TTuple([TInt()])),
     pcase(Case("index_out_of_range", requires=_with_argc(1, lambda E: z3.Not(_pop_in(E))), raises="IndexError",
                ensures=unchanged), args=TTuple([TInt()])),
-], modifies=dl_locs, result=OBJ)
+], modifies=dl_locs, result=ELEM)
 
 
 def _rm_found(E):
